@@ -708,3 +708,18 @@ RECIPES += [
             f.write(form.format(t[j], d[j]))
     else:''', "tabled1 last-line head through a formatted literal, loop bound len(d)"),
 ]
+
+RECIPES += [
+    ("C13", "neutral", [], B, '''    for tid in d:
+        vec = d[tid]
+        d[tid] = np.vstack([vec[8:-1:2], vec[9:-1:2]]).T
+    return d
+''', '''    return {tid: np.vstack([vec[8:-1:2], vec[9:-1:2]]).T for tid, vec in d.items()}
+''', "rdtabled1 as a dict comprehension"),
+    ("C13", "break", ["C13-R3"], B, '''    for tid in d:
+        vec = d[tid]
+        d[tid] = np.vstack([vec[8:-1:2], vec[9:-1:2]]).T
+    return d
+''', '''    return {tid: np.vstack([vec[8:-1:2], vec[10:-1:2]]).T for tid, vec in d.items()}
+''', "rdtabled1 dict comprehension with a shifted ordinate stride"),
+]
